@@ -166,6 +166,7 @@ impl C14 {
         }
         // the three constructors (with_float, with_prob, new from LogProbs) must build the same model
         let ctor = (npaths + t + s) % 3;
+        let ctx_clone_used = std::cell::Cell::new(false);
         let r = guard(|| {
             use bio::stats::{LogProb, Prob};
             let (tp, ep, ip) = (tm.map(|x| Prob(*x)), em.map(|x| Prob(*x)), im.map(|x| Prob(*x)));
@@ -177,16 +178,29 @@ impl C14 {
                     _ => discrete_emission::Model::new(tp.map(|x| LogProb::from(*x)), ep.map(|x| LogProb::from(*x)), ip.map(|x| LogProb::from(*x))),
                 }
                 .unwrap();
-                run_model(&model, &h.obs)
+                // a clone is the same model
+                if npaths % 2 == 0 {
+                    run_model(&model.clone(), &h.obs)
+                } else {
+                    run_model(&model, &h.obs)
+                }
             } else {
                 let model = match ctor {
                     0 => discrete_emission_opt_end::Model::with_float(&tm, &em, &im, endv.as_ref()),
                     _ => discrete_emission_opt_end::Model::with_prob(&tp, &ep, &ip, endp.as_ref()),
                 }
                 .unwrap();
-                run_model(&model, &h.obs)
+                if (npaths + t) % 2 == 0 {
+                    ctx_clone_used.set(true);
+                    run_model(&model.clone(), &h.obs)
+                } else {
+                    run_model(&model, &h.obs)
+                }
             }
         });
+        if ctx_clone_used.get() {
+            ctx.count("opt_end_models_used_through_clone", 1);
+        }
         ctx.eval(3);
         ctx.count(["constructor:with_float", "constructor:with_prob", "constructor:new"][if h.kind == 1 && ctor == 2 { 1 } else { ctor }], 1);
         let desc = |w: String| Obj::new().raw("hmm", &h.json()).f("sum_over_all_paths", total).f("best_path_probability", best).s("what", &w).done();
